@@ -23,7 +23,7 @@ RULE = ("Surfer ASCII grid files written to build/C19/files and read by the real
         "any whitespace incl. TAB/VT/FF/FS..US, blank lines, comments, missing final newline); threshold (tokens at and "
         "one ulp around 1.70141e38 in both dtypes); layout (exhaustive: every shape 2..4 x 2..4(5) written k values per "
         "line for every k, plus transposed and Surfer-style ragged wraps); corrupt (every single header corruption: "
-        "counts swapped/+-1/0/negative/missing/extra/non-integer, data range swapped/shifted inside and outside the "
+        "counts swapped / every other factorisation of rows x columns (product preserving, on non-square bodies) /+-1/0/negative/missing/extra/non-integer, data range swapped/shifted inside and outside the "
         "allclose band/one-sided/including blanks/1 or 3 tokens, region lines swapped/short/long, header lines swapped "
         "or dropped); garbage (bad tokens, ragged rows, empty/short files, 1-row/1-column/single-value bodies, "
         "nan/inf tokens, all-blank grids, missing path, closed file object). Non-trivial = the file was accepted and a "
@@ -524,7 +524,12 @@ def corruptions(rnd, spec, dtype):
     out.append(("nrows-1", with_(shape=["%d" % (nr - 1), "%d" % nc])))
     out.append(("ncols+1", with_(shape=["%d" % nr, "%d" % (nc + 1)])))
     out.append(("ncols-1", with_(shape=["%d" % nr, "%d" % (nc - 1)])))
-    out.append(("counts-product", with_(shape=["%d" % (nr * nc), "1"])))
+    # product-preserving: every other factorisation a x b of the number of values (the body has the
+    # right number of values but its lines are not the header's grid rows)
+    N = nr * nc
+    for a in range(1, N + 1):
+        if N % a == 0 and (a, N // a) != (nr, nc) and (a, N // a) != (nc, nr):
+            out.append(("counts-factor", with_(shape=["%d" % a, "%d" % (N // a)])))
     out.append(("counts-zero", with_(shape=["0", "%d" % nc])))
     out.append(("counts-negative", with_(shape=["-%d" % nr, "%d" % nc])))
     out.append(("counts-one", with_(shape=["%d" % nr])))
@@ -695,7 +700,14 @@ def generate(tier, seed):
     n_cor = 5 if quick else 45
     for i in range(n_cor):
         dt = "float64" if i % 2 == 0 else "float32"
-        spec = valid_spec(rnd, dt, nr=rnd.choice([2, 3, 4, 5]), nc=rnd.choice([2, 3, 4, 6]),
+        if i == 0:
+            bnr, bnc = 2, 6                                  # 12 values: 6x2, 3x4, 4x3, 12x1, 1x12
+        elif i == 1:
+            bnr, bnc = 4, 3
+        else:
+            bnr = rnd.choice([2, 3, 4, 5])
+            bnc = rnd.choice([c for c in (2, 3, 4, 6) if c != bnr])   # non-square: swapped counts must be refused
+        spec = valid_spec(rnd, dt, nr=bnr, nc=bnc,
                           pattern=rnd.choice(["none", "one", "some", "row"]), ws=rnd.choice([0, 1, 2]))
         if i % 3 == 2:
             spec = valid_spec(rnd, dt, nr=3, nc=3, ws=0)     # square: swapped counts / transposes load
